@@ -50,7 +50,7 @@ static Reg r_c09_acc({ "C09.acc", "C09", "sweep",
 static void c09_period_check(Ctx& ctx, const Args& a)
 {
   if (a.size() != 3 || a[0] < 0 || a[0] > 1) { ctx.skip(); return; }
-  const i128 LIM = (i128)1 << 46; int64_t x = a[1], k = a[2]; bool iscos = a[0] == 1;
+  const i128 LIM = (i128)1 << 62; int64_t x = a[1], k = a[2]; bool iscos = a[0] == 1; // |value| < 2^46 == |raw| < 2^62
   if (iabs128(x) >= LIM) { ctx.skip(); return; }
   if (k != 0) ctx.nontriv();
   if (k > 4 || k < -4) ctx.cls("|k|>4"); else ctx.cls("|k|<=4");
@@ -66,20 +66,20 @@ static void c09_period_check(Ctx& ctx, const Args& a)
 }
 static Args c09_period_decode(Ctx& ctx, Dec& d)
 {
-  int fn = (int)d.range(0, 1); int64_t x = dec_raw(d, 46); int mode = (int)d.range(0, 4); uint64_t u = d.u64(); int kb = (int)d.range(1, 27); bool neg = d.flag();
+  int fn = (int)d.range(0, 1); int64_t x = dec_raw(d, 62); int mode = (int)d.range(0, 4); uint64_t u = d.u64(); int kb = (int)d.range(1, 43); bool neg = d.flag();
   int64_t T = 2 * ctx.cuts[0].phi; int64_t k;
   if (mode == 1) { // x next to a reduction boundary (-phi/2, 3phi/2 modulo 2phi) with a huge quotient
-    uint64_t jm = ((uint64_t)1 << (kb < 27 ? kb : 27)) - 1; int64_t j = (int64_t)((u >> 8) & jm); int64_t bnd = (u & 1) ? 3 * ctx.cuts[0].phi / 2 : -(ctx.cuts[0].phi / 2);
-    i128 y = (i128)j * T + bnd + (int64_t)((u >> 40) % 129) - 64; if (neg) y = -y; if (iabs128(y) < ((i128)1 << 46)) x = (int64_t)y; }
+    uint64_t jm = ((uint64_t)1 << kb) - 1; int64_t j = (int64_t)((u >> 8) & jm); int64_t bnd = (u & 1) ? 3 * ctx.cuts[0].phi / 2 : -(ctx.cuts[0].phi / 2);
+    i128 y = (i128)j * T + bnd + (int64_t)((u >> 52) % 129) - 64; if (neg) y = -y; if (iabs128(y) < ((i128)1 << 62)) x = (int64_t)y; }
   if (mode == 0) k = (int64_t)(u % 9) - 4;
   else { uint64_t m = ((uint64_t)1 << kb) - 1; k = (int64_t)((u & m) | ((uint64_t)1 << (kb - 1))); if (neg) k = -k; }
-  // keep |x + k*T| < 2^46 by construction: clamp k into the admissible interval
-  i128 lim = ((i128)1 << 46) - 1; i128 kmax = (lim - x) / T, kmin = -((lim + x) / T);
+  // keep |x + k*T| < 2^62 raw by construction: clamp k into the admissible interval
+  i128 lim = ((i128)1 << 62) - 1; i128 kmax = (lim - x) / T, kmin = -((lim + x) / T);
   if (k > kmax) k = (int64_t)kmax; if (k < kmin) k = (int64_t)kmin;
   return { fn, x, k };
 }
 static Reg r_c09_period({ "C09.period", "C09", "rc",
-  "(x, k) with |x| < 2^46 and |x + k*2*phi| < 2^46 (phi read from the library build): x bit-length uniform up to 46 bits, k small in [-4,4] (1/5) or bit-length uniform up to 27 bits, clamped into the admissible interval; oracle (metamorphic): sin(x + k*2*phi) == sin(x) and cos alike, bit-for-bit, and both results within [-1, 1]; non-trivial = k != 0",
+  "(x, k) with raw |x| < 2^62 and |x + k*2*phi| < 2^62, i.e. values below 2^46 (phi read from the library build): x bit-length uniform up to 62 bits or (1/5) planted within 64 raw of a reduction boundary j*2phi + {-phi/2, 3phi/2} with j up to 43 bits; k small in [-4,4] (1/5) or bit-length uniform up to 43 bits, clamped into the admissible interval; oracle (metamorphic): sin(x + k*2*phi) == sin(x) and cos alike, bit-for-bit, and both results within [-1, 1]; non-trivial = k != 0",
   c09_period_check, 16, c09_period_decode, nullptr });
 
 // ================================================================ C10
